@@ -5,7 +5,9 @@ import PdshVerif.Dsh.TimedK
 /-!
 # C07 — a failing or slow host never harms the others; timeouts bound the run
 
-Model: `Dsh/Timed.lean` = the Fan LTS of C03/C04 (dispatcher, workers, mutex/condvar) + an integer
+Model: `Dsh/Timed.lean` = the fan-out LTS of C03/C04 in its general form `Dsh/FanG.lean` (dispatcher, workers,
+mutex/condvar; EVERY signalling discipline: wake-up call inside or after the critical section, signal | broadcast —
+so every theorem below holds for each of them) + an integer
 clock + one record per target (phase NEW/RCMD/connecting/READING/finished, `start`, `connect`,
 pending SIGALRM, the two streams, outcome, what dsh.c printed about it) + the watchdog (`scan` every
 WDOG_POLL seconds, SIGALRM to overdue targets, effective iff the target is blocked in connect or
@@ -26,8 +28,8 @@ release its fanout slot.  A wait interrupted by a signal would give the command 
 signals targets that are connecting or reading.
 
 What is proved (all fanouts, all numbers of targets, all fault vectors, all schedules):
-* `fan_refinement`: a timed execution is a Fan execution — C03/C04 carry over (`inflight_le_fanout_timed`,
-  `each_target_connected_once`);
+* `fan_refinement`: a timed execution is a `FanG` execution — C03/C04 (`Props/C03 G.*`, `Props/C04 G.*`) carry over
+  (`inflight_le_fanout_timed`, `each_target_connected_once`);
 * `non_interference_step` / `non_interference`: a target's record evolves as a function of the record,
   its OWN script, the timeouts and the clock only;
 * `healthy_never_interrupted`, `healthy_complete`: a target that accepts within the connect timeout and
@@ -50,10 +52,21 @@ The connect outcome of the model is success / failure (`Conn.ok` / `refuse` / in
 the correspondence maps `rcmd_connect() ≥ 0` to success, and the descriptor VALUE the scripted transport returns is
 generated over {0, 1, 2, ≥ 3} (harness key `lowfds`).
 
-Not proved here: that dsh.c refines the LTS (trace correspondence of `checks/c07.py`); anything below
-the granularity "operations + blocking calls" (a SIGALRM that finds the worker between two xpoll calls
-is lost — finding F07-LOSTALRM — the model's workers are always inside xpoll while READING);
-scheduling latency of real threads; `-k`; DNS.
+* `-k` (section `K`, LTS `Dsh/TimedK.lean` = the timed LTS + the fail-fast exit): `K.failfast_enabled` (the exit is
+  enabled as soon as a failed target's worker has left `rcmd_destroy`, whatever everybody else does),
+  `K.failfast_now` (no time passes and the failed worker does not give its slot back while the exit is pending),
+  `K.exit_is_end`, `K.abort_signals_reading` (SIGTERM to every READING target, nobody else's record touched),
+  `K.refines_timed` (until the exit a -k run IS a timed run: all of the above applies),
+  `K.without_k_is_timed` (fail-fast only if asked).
+The pdcp worker `_rcp_thread` runs the same slot protocol; its connect phase (refuse, hang, delays straddling the
+deadline) is under this correspondence too (pinned cases `pers pcp`).
+
+Not proved here: that dsh.c refines the LTS (trace correspondence of `checks/c07.py`; `pdshmodel timed` runs
+`TimedK.step` = `Timed.step` over `FanG.step`, plus the -k exit); anything below the granularity "operations +
+blocking calls" (a SIGALRM that finds the worker between two xpoll calls is lost — finding F07-LOSTALRM — the
+model's workers are always inside xpoll while READING); scheduling latency of real threads; `pthread_create`
+failure under -k; that `_fwd_signal` leaves targets that are already in their teardown unsignalled when pdsh exits
+(they are: only DSH_READING slots are signalled — not constrained by the property); DNS.
 -/
 namespace PdshVerif.Props.C07
 open PdshVerif.Dsh PdshVerif.Dsh.Timed
